@@ -322,7 +322,10 @@ def r5_effects(ctx):
             entry = q.loop_entry(b, i[0], i[1])
             wo = b.reachable(entry, removed=[bi])
             r.check(not any(l_ in wo for l_ in i[2]), "inputs/every", "every input is removed", "an input can be skipped", b.where(bi))
-        if o is not None:
+        if o is not None and i is not None and o[0] == i[0]:
+            # one loop over `transactions.flat_map(|tx| tx.inputs)`: the nest is a single loop, `inputs/every` has already decided it
+            r.ok("inputs/every-tx", "for every transaction (flattened nest)", b.where(bi))
+        elif o is not None:
             entry = q.loop_entry(b, o[0], o[1])
             ih = [l[0] for l in loops if sig(l[3]) == "%s.inputs" % EL and l[0] in o[1]]
             wo = b.reachable(entry, removed=ih)
